@@ -286,6 +286,26 @@ mod int {
         }
     }
 
+    pub(crate) fn pow(base: VmInt, exp: u32) -> RuntimeResult<VmInt, String> {
+        match base.checked_pow(exp) {
+            Some(value) => RuntimeResult::Return(value),
+            None => RuntimeResult::Panic(format!(
+                "attempted to raise {} to the power of {} with overflow",
+                base, exp
+            )),
+        }
+    }
+
+    pub(crate) fn abs(value: VmInt) -> RuntimeResult<VmInt, String> {
+        match value.checked_abs() {
+            Some(value) => RuntimeResult::Return(value),
+            None => RuntimeResult::Panic(format!(
+                "attempted to take the absolute value of {} with overflow",
+                value
+            )),
+        }
+    }
+
     pub(crate) fn overflowing_rem_euclid(
         dividend: VmInt,
         divisor: VmInt,
@@ -683,8 +703,8 @@ pub fn load_int(vm: &Thread) -> Result<ExternModule> {
             from_le => primitive!(1, std::int::prim::from_le),
             to_be => primitive!(1, std::int::prim::to_be),
             to_le => primitive!(1, std::int::prim::to_le),
-            pow => primitive!(2, std::int::prim::pow),
-            abs => primitive!(1, std::int::prim::abs),
+            pow => primitive!(2, "std::int::prim::pow", int::pow),
+            abs => primitive!(1, "std::int::prim::abs", int::abs),
             rem => primitive!(2, "std::int::prim::rem", int::rem),
             rem_euclid => primitive!(2, "std::int::prim::rem_euclid", int::rem_euclid),
             checked_rem => primitive!(2, std::int::prim::checked_rem),
